@@ -584,6 +584,36 @@ fn check_c06(docs: &[Vec<u8>]) -> Option<String> {
     if let Ok(_) = extend_struct(&mut Reader::from_reader(&b"<r><unclosed></r>"[..]), base.clone()) {
         return Some("a malformed extension document was accepted".into());
     }
+    // the supplied documents themselves, damaged: a duplicated attribute on the root and on every other start tag
+    for d in docs {
+        let text = String::from_utf8_lossy(d).into_owned();
+        let mut variants: Vec<String> = Vec::new();
+        let mut from = 0;
+        while let Some(i) = text[from..].find('<') {
+            let at = from + i;
+            let next = text[at + 1..].chars().next().unwrap_or(' ');
+            if next.is_alphabetic() {
+                // end of the tag name
+                let name_end = text[at + 1..].find(|c: char| c == ' ' || c == '>' || c == '/').map(|k| at + 1 + k).unwrap_or(text.len());
+                let mut v = text.clone();
+                v.insert_str(name_end, " dup=\"1\" dup=\"2\"");
+                variants.push(v);
+            }
+            from = at + 1;
+            if variants.len() >= 4 {
+                break;
+            }
+        }
+        for v in variants {
+            if dom(v.as_bytes()).is_some() {
+                continue; // the reader did not object: not a malformed document after all
+            }
+            if let Ok(r) = extend_struct(&mut Reader::from_reader(v.as_bytes()), base.clone()) {
+                let _ = r;
+                return Some(format!("a failed extension must report an error, but extending with the malformed document {:?} returned Ok (a partial result)", v));
+            }
+        }
+    }
     None
 }
 
